@@ -5,6 +5,7 @@
 mod daemon_fx;
 mod engine;
 mod fdtrack;
+mod feops;
 mod gen;
 mod props;
 mod rawclient;
